@@ -154,26 +154,17 @@ func ParseURI(raw string) (*URI, error) { //nolint:gocognit,cyclop
 		var e *net.AddrError
 		if errors.As(err, &e) {
 			if e.Err == "missing port in address" {
-				nextRawURL := uri.Scheme.String() + ":" + rawParts.Opaque
+				// Retry once with the scheme's default port appended.
 				switch {
 				case uri.Scheme == SchemeTypeSTUN || uri.Scheme == SchemeTypeTURN:
-					nextRawURL += ":3478"
-					if rawParts.RawQuery != "" {
-						nextRawURL += "?" + rawParts.RawQuery
-					}
-
-					return ParseURI(nextRawURL)
+					uri.Host, rawPort, err = net.SplitHostPort(rawParts.Opaque + ":3478")
 				case uri.Scheme == SchemeTypeSTUNS || uri.Scheme == SchemeTypeTURNS:
-					nextRawURL += ":5349"
-					if rawParts.RawQuery != "" {
-						nextRawURL += "?" + rawParts.RawQuery
-					}
-
-					return ParseURI(nextRawURL)
+					uri.Host, rawPort, err = net.SplitHostPort(rawParts.Opaque + ":5349")
 				}
 			}
 		}
-
+	}
+	if err != nil {
 		return nil, err
 	}
 
